@@ -170,20 +170,27 @@ Qed.
 
 
 (* ---- export order ---- *)
-Section TreeInd.
-  Variable P : tree -> Prop.
-  Hypothesis H : forall k cs, Forall P cs -> P (Nd k cs).
-  Fixpoint tree_ind' (t : tree) : P t :=
+Section XTreeInd.
+  Variable P : xtree -> Prop.
+  Hypothesis H : forall k cs ds, Forall P cs -> Forall P ds -> P (XNd k cs ds).
+  Fixpoint xtree_ind' (t : xtree) : P t :=
     match t with
-    | Nd k cs => H k cs ((fix go (l : forest) : Forall P l :=
-                   match l with [] => Forall_nil P | x :: r => Forall_cons x (tree_ind' x) (go r) end) cs)
+    | XNd k cs ds =>
+        H k cs ds
+          ((fix go (l : xforest) : Forall P l :=
+              match l with [] => Forall_nil P | x :: r => Forall_cons x (xtree_ind' x) (go r) end) cs)
+          ((fix go (l : xforest) : Forall P l :=
+              match l with [] => Forall_nil P | x :: r => Forall_cons x (xtree_ind' x) (go r) end) ds)
     end.
-End TreeInd.
+End XTreeInd.
 
-Fixpoint tree_keys (t : tree) : list nat :=
-  match t with Nd k cs => k :: (fix go (l : forest) : list nat := match l with [] => [] | c :: r => tree_keys c ++ go r end) cs end.
-Definition forest_keys (f : forest) : list nat := flat_map tree_keys f.
-Lemma tree_keys_eq k cs : tree_keys (Nd k cs) = k :: forest_keys cs.
+(* the keys a symbol uses: its type and, recursively, its attrs (not the declarations looked up on the way) *)
+Fixpoint ukeys (t : xtree) : list nat :=
+  match t with
+  | XNd k cs _ => k :: (fix go (l : xforest) : list nat := match l with [] => [] | c :: r => ukeys c ++ go r end) cs
+  end.
+Definition uforest_keys (f : xforest) : list nat := flat_map ukeys f.
+Lemma ukeys_eq k cs ds : ukeys (XNd k cs ds) = k :: uforest_keys cs.
 Proof. reflexivity. Qed.
 
 Section OrderFacts.
@@ -196,86 +203,106 @@ Section OrderFacts.
     rewrite orb_true_iff, IH, Nat.eqb_eq. split; intros [H|H]; auto.
   Qed.
 
-  Lemma order_attr_eq k cs o :
-    order_attr tmod m (Nd k cs) o =
-    let o1 := fold_left (fun o c => order_attr tmod m c o) cs o in
-    if Nat.eqb m (tmod k) && negb (mem_nat k o1) then o1 ++ [k] else o1.
+  Lemma order_x_eq k cs ds bl o :
+    order_x tmod m (XNd k cs ds) bl o =
+    let o1 := order_forest tmod m bl cs o in
+    if Nat.eqb m (tmod k) && negb (mem_nat k o1) && negb (mem_nat k bl)
+    then order_forest tmod m (k :: bl) ds o1 ++ [k]
+    else o1.
   Proof.
-    cbn [order_attr].
-    assert (forall l o0, (fix go (l : forest) (o : list nat) : list nat := match l with [] => o | c :: r => go r (order_attr tmod m c o) end) l o0
-                         = fold_left (fun o c => order_attr tmod m c o) l o0) as E
-      by (induction l as [|c r IH]; intros o0; [reflexivity|apply IH]).
-    rewrite E. reflexivity.
+    cbn [order_x]. unfold order_forest.
+    assert (forall b l o0, (fix go (l : xforest) (o : list nat) : list nat := match l with [] => o | c :: r => go r (order_x tmod m c b o) end) l o0
+                           = fold_left (fun o c => order_x tmod m c b o) l o0) as E
+      by (intros b l; induction l as [|c r IH]; intros o0; [reflexivity|apply IH]).
+    rewrite !E. reflexivity.
   Qed.
 
-  Definition grows_and_covers (t : tree) : Prop := forall o,
-    (exists e, order_attr tmod m t o = o ++ e) /\
-    (forall k, In k (tree_keys t) -> tmod k = m -> In k (order_attr tmod m t o)).
+  (* the result extends the list it was given, and lists every key of the exported module that the symbol uses and that is not
+     in the middle of being listed (blocked) *)
+  Definition grows_and_covers (t : xtree) : Prop := forall bl o,
+    (exists e, order_x tmod m t bl o = o ++ e) /\
+    (forall k, In k (ukeys t) -> tmod k = m -> ~ In k bl -> In k (order_x tmod m t bl o)).
 
-  Lemma fold_attrs cs : Forall grows_and_covers cs -> forall o,
-    (exists e, fold_left (fun o c => order_attr tmod m c o) cs o = o ++ e) /\
-    (forall k, In k (forest_keys cs) -> tmod k = m -> In k (fold_left (fun o c => order_attr tmod m c o) cs o)).
+  Lemma fold_attrs cs : Forall grows_and_covers cs -> forall bl o,
+    (exists e, order_forest tmod m bl cs o = o ++ e) /\
+    (forall k, In k (uforest_keys cs) -> tmod k = m -> ~ In k bl -> In k (order_forest tmod m bl cs o)).
   Proof.
-    induction 1 as [|c r Hc _ IH]; intros o.
+    unfold order_forest. induction 1 as [|c r Hc _ IH]; intros bl o.
     - split; [exists []; rewrite app_nil_r; reflexivity|intros k []].
-    - cbn [fold_left]. destruct (Hc o) as [[e1 E1] C1]. destruct (IH (order_attr tmod m c o)) as [[e2 E2] C2]. split.
+    - cbn [fold_left]. destruct (Hc bl o) as [[e1 E1] C1]. destruct (IH bl (order_x tmod m c bl o)) as [[e2 E2] C2]. split.
       + exists (e1 ++ e2). rewrite E2, E1, app_assoc. reflexivity.
-      + intros k Hk Hm. cbn [forest_keys flat_map] in Hk. apply in_app_or in Hk as [Hk|Hk].
+      + intros k Hk Hm Hb. cbn [uforest_keys flat_map] in Hk. apply in_app_or in Hk as [Hk|Hk].
         * rewrite E2. apply in_or_app. left. apply C1; assumption.
         * apply C2; assumption.
   Qed.
 
   Lemma attr_ok t : grows_and_covers t.
   Proof.
-    induction t as [k cs IH] using tree_ind'. intros o. rewrite order_attr_eq. cbn zeta.
-    destruct (fold_attrs cs IH o) as [[e E] C]. rewrite tree_keys_eq.
-    destruct (Nat.eqb m (tmod k) && negb (mem_nat k (fold_left (fun o c => order_attr tmod m c o) cs o))) eqn:B.
-    - split; [exists (e ++ [k]); rewrite E, app_assoc; reflexivity|].
-      intros x [->|Hx] Hm; apply in_or_app; [right; left; reflexivity|left; apply C; assumption].
-    - split; [exists e; exact E|]. intros x [->|Hx] Hm; [|apply C; assumption].
-      apply andb_false_iff in B as [B|B].
+    induction t as [k cs ds IHc IHd] using xtree_ind'. intros bl o. rewrite order_x_eq. cbn zeta.
+    destruct (fold_attrs cs IHc bl o) as [[e E] C]. rewrite ukeys_eq.
+    set (o1 := order_forest tmod m bl cs o) in *.
+    destruct (Nat.eqb m (tmod k) && negb (mem_nat k o1) && negb (mem_nat k bl)) eqn:B.
+    - destruct (fold_attrs ds IHd (k :: bl) o1) as [[e2 E2] _].
+      split; [exists (e ++ e2 ++ [k]); rewrite E2, E, <- !app_assoc; reflexivity|].
+      intros x [->|Hx] Hm Hb; apply in_or_app; [right; left; reflexivity|].
+      left. rewrite E2. apply in_or_app. left. apply C; assumption.
+    - split; [exists e; exact E|]. intros x [->|Hx] Hm Hb; [|apply C; assumption].
+      apply andb_false_iff in B as [B|B]; [apply andb_false_iff in B as [B|B]|].
       + apply Nat.eqb_neq in B. congruence.
       + apply negb_false_iff in B. apply mem_nat_in. exact B.
+      + apply negb_false_iff in B. apply mem_nat_in in B. contradiction.
   Qed.
 
-  (* a row whose key is appended at its own turn comes after every in-module type key of its attrs
-     (all depths) and after its own in-module type key *)
-  Lemma order_row_spec r o : mem_nat (rkey r) (fold_left (fun o c => order_attr tmod m c o) (rattrs r) o) = false ->
-    rkey r <> rtype r ->
-    exists a, order_row tmod m r o = a ++ [rkey r] /\ (exists e, a = o ++ e) /\
-      (forall k, In k (forest_keys (rattrs r)) -> tmod k = m -> In k a) /\ (rtmod r = m -> In (rtype r) a).
+  Lemma all_ok f : Forall grows_and_covers f.
+  Proof. apply Forall_forall. intros; apply attr_ok. Qed.
+
+  (* the repaired behaviour: a type key that is listed now comes after the keys its declaration uses (the type variables of a
+     generic class, for one) *)
+  Theorem declaration_first k cs d bl o :
+    Nat.eqb m (tmod k) && negb (mem_nat k (order_forest tmod m bl cs o)) && negb (mem_nat k bl) = true ->
+    exists a, order_x tmod m (XNd k cs d) bl o = a ++ [k] /\
+      (forall x, In x (uforest_keys d) -> tmod x = m -> ~ In x (k :: bl) -> In x a).
   Proof.
-    intros Hk Hne. unfold order_row.
-    assert (Forall grows_and_covers (rattrs r)) as HA by (apply Forall_forall; intros; apply attr_ok).
-    destruct (fold_attrs (rattrs r) HA o) as [[e E] C].
-    set (o1 := fold_left (fun o c => order_attr tmod m c o) (rattrs r) o) in *.
+    intros B. rewrite order_x_eq. cbn zeta. rewrite B.
+    exists (order_forest tmod m (k :: bl) d (order_forest tmod m bl cs o)). split; [reflexivity|].
+    intros x Hx Hm Hb. apply (fold_attrs d (all_ok d) (k :: bl)); assumption.
+  Qed.
+
+  (* a row whose key is appended at its own turn comes after every in-module type key its attrs use (all depths), after its own
+     in-module type key, and - when that type is listed at this point - after the keys the declaration of that type uses *)
+  Lemma order_row_pre_spec r o :
+    (exists e, order_row_pre tmod m r o = o ++ e) /\
+    (forall k, In k (uforest_keys (rattrs r)) -> tmod k = m -> In k (order_row_pre tmod m r o)) /\
+    (rtmod r = m -> In (rtype r) (order_row_pre tmod m r o)) /\
+    (rtmod r = m -> mem_nat (rtype r) (order_forest tmod m [] (rattrs r) o) = false ->
+     exists a, order_row_pre tmod m r o = a ++ [rtype r] /\
+       forall k, In k (uforest_keys (rdecl r)) -> tmod k = m -> k <> rtype r -> In k a).
+  Proof.
+    unfold order_row_pre.
+    destruct (fold_attrs (rattrs r) (all_ok _) [] o) as [[e E] C].
+    set (o1 := order_forest tmod m [] (rattrs r) o) in *.
     destruct (Nat.eqb m (rtmod r) && negb (mem_nat (rtype r) o1)) eqn:B.
-    - assert (mem_nat (rkey r) (o1 ++ [rtype r]) = false) as Hk2.
-      { destruct (mem_nat (rkey r) (o1 ++ [rtype r])) eqn:X; [|reflexivity]. apply mem_nat_in in X. apply in_app_or in X as [X|[X|[]]].
-        - apply mem_nat_in in X. congruence.
-        - congruence. }
-      rewrite Hk2. exists (o1 ++ [rtype r]). repeat split.
-      + exists (e ++ [rtype r]). rewrite E, app_assoc. reflexivity.
-      + intros k Hin Hm. apply in_or_app. left. apply C; assumption.
+    - set (o2 := order_forest tmod m [rtype r] (rdecl r) o1).
+      destruct (fold_attrs (rdecl r) (all_ok _) [rtype r] o1) as [[e2 E2] _]. fold o2 in E2.
+      repeat split.
+      + exists (e ++ e2 ++ [rtype r]). rewrite E2, E, <- !app_assoc. reflexivity.
+      + intros k Hin Hm. apply in_or_app. left. rewrite E2. apply in_or_app. left. apply C; [assumption|assumption|intros []].
       + intros _. apply in_or_app. right. left. reflexivity.
-    - rewrite Hk. exists o1. repeat split.
+      + intros _ _. exists o2. split; [reflexivity|]. intros k Hin Hm Hne. unfold o2.
+        apply (fold_attrs (rdecl r) (all_ok _) [rtype r]); [assumption|assumption|]. intros [Hx|[]]. congruence.
+    - repeat split.
       + exists e. exact E.
-      + intros k Hin Hm. apply C; assumption.
+      + intros k Hin Hm. apply C; [assumption|assumption|intros []].
       + intros Hm. apply andb_false_iff in B as [B|B].
         * apply Nat.eqb_neq in B. congruence.
         * apply negb_false_iff in B. apply mem_nat_in. exact B.
+      + intros Hm Hnot. rewrite Hnot in B. apply andb_false_iff in B as [B|B]; [apply Nat.eqb_neq in B; congruence|discriminate].
   Qed.
 
   Lemma order_row_grows r o : exists e, order_row tmod m r o = o ++ e.
   Proof.
-    unfold order_row.
-    assert (Forall grows_and_covers (rattrs r)) as HA by (apply Forall_forall; intros; apply attr_ok).
-    destruct (fold_attrs (rattrs r) HA o) as [[e E] _].
-    set (o1 := fold_left (fun o c => order_attr tmod m c o) (rattrs r) o) in *.
-    set (o2 := if Nat.eqb m (rtmod r) && negb (mem_nat (rtype r) o1) then o1 ++ [rtype r] else o1).
-    assert (exists e2, o2 = o ++ e2) as [e2 E2].
-    { unfold o2. destruct (Nat.eqb m (rtmod r) && negb (mem_nat (rtype r) o1)); [exists (e ++ [rtype r]); rewrite E, app_assoc; reflexivity|exists e; exact E]. }
-    destruct (mem_nat (rkey r) o2); [exists e2; exact E2|exists (e2 ++ [rkey r]); rewrite E2, app_assoc; reflexivity].
+    unfold order_row. destruct (order_row_pre_spec r o) as [[e E] _].
+    destruct (mem_nat (rkey r) (order_row_pre tmod m r o)); [exists e; exact E|exists (e ++ [rkey r]); rewrite E, app_assoc; reflexivity].
   Qed.
 
   Lemma order_keys_grows rows : forall o, exists e, fold_left (fun o r => if Nat.eqb (rmod r) m then order_row tmod m r o else o) rows o = o ++ e.
@@ -287,14 +314,39 @@ Section OrderFacts.
   Qed.
 
   Theorem export_order_partial pre r post :
-    rmod r = m -> rkey r <> rtype r ->
-    mem_nat (rkey r) (fold_left (fun o c => order_attr tmod m c o) (rattrs r) (order_keys tmod m pre)) = false ->
+    rmod r = m ->
+    mem_nat (rkey r) (order_row_pre tmod m r (order_keys tmod m pre)) = false ->
     exists a b, order_keys tmod m (pre ++ r :: post) = a ++ rkey r :: b /\
-      (forall k, In k (forest_keys (rattrs r)) -> tmod k = m -> In k a) /\ (rtmod r = m -> In (rtype r) a).
+      (forall k, In k (uforest_keys (rattrs r)) -> tmod k = m -> In k a) /\ (rtmod r = m -> In (rtype r) a).
   Proof.
-    intros Hm Hne Hk. unfold order_keys in *. rewrite fold_left_app. cbn [fold_left]. rewrite Hm, Nat.eqb_refl.
-    destruct (order_row_spec r _ Hk Hne) as [a [Ea [_ [Ca Ct]]]]. rewrite Ea.
+    intros Hm Hk. unfold order_keys in *. rewrite fold_left_app. cbn [fold_left]. rewrite Hm, Nat.eqb_refl.
+    set (o0 := fold_left (fun o r0 => if Nat.eqb (rmod r0) m then order_row tmod m r0 o else o) pre []) in *.
+    assert (order_row tmod m r o0 = order_row_pre tmod m r o0 ++ [rkey r]) as Er by (unfold order_row; cbv zeta; rewrite Hk; reflexivity).
+    rewrite Er.
+    destruct (order_row_pre_spec r o0) as [_ [Ca [Ct _]]].
+    set (a := order_row_pre tmod m r o0) in *.
     destruct (order_keys_grows post (a ++ [rkey r])) as [e E]. rewrite E.
     exists a, e. rewrite <- app_assoc. split; [reflexivity|]. split; assumption.
+  Qed.
+
+  (* the declaration of the row's own type: when the type is listed by this row, the keys its declaration uses come first *)
+  Theorem export_order_declaration pre r post :
+    rmod r = m -> rtmod r = m ->
+    mem_nat (rtype r) (order_forest tmod m [] (rattrs r) (order_keys tmod m pre)) = false ->
+    exists a b, order_keys tmod m (pre ++ r :: post) = a ++ rtype r :: b /\
+      forall k, In k (uforest_keys (rdecl r)) -> tmod k = m -> k <> rtype r -> In k a.
+  Proof.
+    intros Hm Ht Hnot. unfold order_keys in *. rewrite fold_left_app. cbn [fold_left]. rewrite Hm, Nat.eqb_refl.
+    set (o0 := fold_left (fun o r0 => if Nat.eqb (rmod r0) m then order_row tmod m r0 o else o) pre []) in *.
+    destruct (order_row_pre_spec r o0) as [_ [_ [_ Cd]]].
+    destruct (Cd Ht Hnot) as [a [Ea Ca]].
+    assert (order_row tmod m r o0 = if mem_nat (rkey r) (a ++ [rtype r]) then a ++ [rtype r] else (a ++ [rtype r]) ++ [rkey r]) as Er
+      by (unfold order_row; cbv zeta; rewrite Ea; reflexivity).
+    rewrite Er.
+    set (o3 := if mem_nat (rkey r) (a ++ [rtype r]) then a ++ [rtype r] else (a ++ [rtype r]) ++ [rkey r]).
+    assert (exists e3, o3 = (a ++ [rtype r]) ++ e3) as [e3 E3]
+      by (unfold o3; destruct (mem_nat (rkey r) (a ++ [rtype r])); [exists []; rewrite app_nil_r; reflexivity|exists [rkey r]; reflexivity]).
+    destruct (order_keys_grows post o3) as [e E]. rewrite E, E3.
+    exists a, (e3 ++ e). rewrite <- !app_assoc. split; [reflexivity|exact Ca].
   Qed.
 End OrderFacts.
